@@ -74,13 +74,16 @@ Proof.
 Qed.
 Print Assumptions C12_translators_meet_spec.
 
+(** C12-F2 (open): the guard is needed — an override that is no status (here -5), no hand-built
+    redirect value involved: the HTTP translator and the gRPC translator answer differently *)
 Theorem C12_F2_refuted :
-  exists c o e, guard_F2 c e = true /\
+  exists c o e, guard_F2o_class c (spec_class e) = true /\ guard_F5_class (spec_class e) = false /\
     http_status (http_handle c o e no_hdrs) <> option_map g_status (grpc_handle c o e).
 Proof. exact F2_refuted. Qed.
 Print Assumptions C12_F2_refuted.
 
-(** C12-F5: the same split for a redirect error value built by hand with a code that is no status *)
+(** C12-F5 (open, latent: no heimdall code builds such a value): the same split for a redirect error
+    value built by hand with a code that is no status, no override involved *)
 Theorem C12_F5_refuted :
   exists c o e, guard_F5_class (spec_class e) = true /\ guard_F2o_class c (spec_class e) = false /\
     http_status (http_handle c o e no_hdrs) <> option_map g_status (grpc_handle c o e).
@@ -170,7 +173,8 @@ Theorem C12_entry_points_meet_spec : forall fx file c o nv sc,
 Proof. exact entry_points_meet_spec. Qed.
 Print Assumptions C12_entry_points_meet_spec.
 
-(** the tree as it is (C12-F4 repaired): only the guards of C12-F1 and C12-F2 remain *)
+(** the tree as it is (C12-F4 repaired): only the guards of C12-F1 and C12-F2/C12-F5
+    remain ([xguard_F2] covers both: an override or a hand-built redirect code that is no status) *)
 Theorem C12_entry_points_meet_spec_as_is : forall file c o nv sc,
   oracle_ok nv o = true -> xguard_F1 as_is sc = false -> xguard_F2 c sc = false ->
   (forall proxy, match sc with XProxy _ => proxy = true | _ => True end ->
@@ -219,8 +223,10 @@ Theorem C12_www_authenticate_challenge : forall sc realm,
 Proof. exact x_challenge_names. Qed.
 Print Assumptions C12_www_authenticate_challenge.
 
-(** a redirect handler created by the loader (any configuration source) has a code
-    in 300..399, 302 when unset: valid, never a success status (fix: 6c5864d) *)
+(** a redirect handler that [create_redirect] (the model of newRedirectErrorHandler's validation
+    `omitempty,gte=300,lte=399`, fix: 6c5864d) accepts has a code in 300..399, 302 when unset: valid, never
+    a success status.  Mostly an unfolding of [create_redirect]; its tie to the code is the creation
+    probe of the run (one code per case against the real constructor: accepted => valid and no success) *)
 Theorem C12_redirect_handler_code_is_3xx : forall c o code to m cause,
   create_redirect code to = Some m ->
   m = MRedirect code to /\ 300 <= redirect_status code <= 399 /\
@@ -232,15 +238,29 @@ Theorem C12_redirect_handler_code_is_3xx : forall c o code to m cause,
 Proof. exact created_redirect_code. Qed.
 Print Assumptions C12_redirect_handler_code_is_3xx.
 
-(** C12-F1: the guard is needed — in the tree as it is no response of any entry point ever
-    carries a WWW-Authenticate header *)
+(** C12-F1 (open): the guard is needed, stated with the guard of the evaluator ([xguard_F1]) and the
+    specification of the main theorem ([seen_ok]) for the tree AS IT IS ([as_is]): an authorization
+    failure handled by a www_authenticate handler with realm "r" — only this guard fires, and the
+    answers of the decision service, the proxy service and the Envoy service do not meet the
+    specification (everything but the challenge clause holds); with fixes/C12-F1.diff ([repaired]) they do *)
 Theorem C12_F1_refuted :
-  exists c o m cause, guard_F1 m = true /\
-    (forall s h b, http_respond c o (ScHandled m cause) = HFinal s h b -> ~ demanded_headers m h) /\
-    (forall d, grpc_respond c o (ScHandled m cause) = GDenied d -> ~ demanded_headers m (g_hdrs d)) /\
-    (exists s h b, http_respond c o (ScHandled m cause) = HFinal s h b) /\
-    (exists d, grpc_respond c o (ScHandled m cause) = GDenied d).
-Proof. exact F1_refuted. Qed.
+  xguard_F1 as_is f1_sc = true /\ xguard_F2 zero_cfg f1_sc = false /\
+  xguard_F4 as_is false zero_cfg (d_classes (demand_of f1_sc)) = false /\
+  oracle_ok free_view any_oracle = true /\
+  seen_ok zero_cfg free_view (hyp_never_success zero_cfg f1_sc) (demand_of f1_sc)
+          (seen_of_hfinal (entry_http as_is false false zero_cfg any_oracle f1_sc)) = false /\
+  seen_ok zero_cfg free_view (hyp_never_success zero_cfg f1_sc) (demand_of f1_sc)
+          (seen_of_hfinal (entry_http as_is true false zero_cfg any_oracle f1_sc)) = false /\
+  seen_ok zero_cfg free_view (hyp_never_success zero_cfg f1_sc) (demand_of f1_sc)
+          (seen_of_gfinal (entry_grpc as_is false zero_cfg any_oracle f1_sc)) = false /\
+  seen_ok_w (xwaiver as_is false zero_cfg f1_sc) zero_cfg free_view (hyp_never_success zero_cfg f1_sc) (demand_of f1_sc)
+          (seen_of_hfinal (entry_http as_is false false zero_cfg any_oracle f1_sc)) = true /\
+  xwaiver as_is false zero_cfg f1_sc = {| w_status := false; w_www := true |} /\
+  seen_ok zero_cfg free_view (hyp_never_success zero_cfg f1_sc) (demand_of f1_sc)
+          (seen_of_hfinal (entry_http repaired false false zero_cfg any_oracle f1_sc)) = true /\
+  seen_ok zero_cfg free_view (hyp_never_success zero_cfg f1_sc) (demand_of f1_sc)
+          (seen_of_gfinal (entry_grpc repaired false zero_cfg any_oracle f1_sc)) = true.
+Proof. exact F1_refuted_spec. Qed.
 Print Assumptions C12_F1_refuted.
 
 Theorem C12_F1_header_never_written : forall c o sc,
@@ -298,9 +318,13 @@ Example C12_nonvacuous :
   http_handle c any_oracle e no_hdrs =
     HResp 470 {| h_location := None; h_www := None; h_ctype := Some Html |} true.
 Proof. exact nonvacuous. Qed.
+Print Assumptions C12_nonvacuous.
 
-(** ... and a rule whose first handler does not apply and whose second one redirects,
-    configuration from a file: the hypotheses of C12_entry_points_meet_spec hold *)
+(** ... and a rule whose first handler does not apply and whose second one redirects, configuration from
+    a file, an Accept header admitting text/html only and an oracle negotiating it: ALL hypotheses of
+    C12_entry_points_meet_spec_as_is hold at once (with [any_oracle], which negotiates json for gRPC,
+    the oracle hypothesis would fail).  That C12_entry_points_inside_guards is not vacuous either is
+    shown by the witness of C12_F1_refuted ([xguard_F1 as_is f1_sc = true], waiver = the challenge clause) *)
 Example C12_nonvacuous_entry :
   let c := {| c_verbose := true; ov_authn := 0; ov_authz := 470; ov_comm := 0; ov_precond := 0;
               ov_norule := 0; ov_internal := 503 |} in
@@ -308,11 +332,10 @@ Example C12_nonvacuous_entry :
   let sc := XFail [ {| x_applies := false; x_mech := MWWW "r"; x_conf := WcNone |};
                     {| x_applies := true; x_mech := MRedirect 307 (Some "http://idp/login"%string); x_conf := WcNone |} ] cause in
   let nv := {| nv_free := false; nv_allowed := [Html]; nv_other := [] |} in
-  oracle_ok nv any_oracle = false /\
-  oracle_ok nv (ne_always {| o_neg_http := Some Html; o_neg_grpc := Some Html; o_json_ne := true; o_xml_ne := true; o_plain_ne := true |}) = true /\
-  xguard_F1 unrepaired sc = false /\ xguard_F2 (loaded unrepaired true c) sc = false /\
-  xguard_F4 unrepaired true c (d_classes (demand_of sc)) = false /\
+  oracle_ok nv html_oracle = true /\ oracle_ok nv any_oracle = false /\
+  xguard_F1 as_is sc = false /\ xguard_F2 c sc = false /\
   demand_of sc = {| d_classes := [ClRedirect 307 "http://idp/login"]; d_realm := None; d_hard := false |} /\
-  entry_http unrepaired true true c any_oracle sc =
+  entry_http as_is true true c html_oracle sc =
     HFinal 307 {| h_location := Some "http://idp/login"%string; h_www := None; h_ctype := None |} false.
 Proof. exact nonvacuous_entry. Qed.
+Print Assumptions C12_nonvacuous_entry.
